@@ -610,9 +610,15 @@ def main():
         ):
             old_value = old_value.replace(" ", "\n")
 
+        # The saved copy must not also copy the original's Anchor lest the
+        # document define the same Anchor twice and become unloadable.
+        saved_value = Nodes.clone_node(old_value)
+        if hasattr(saved_value, "yaml_set_anchor"):
+            saved_value.yaml_set_anchor(None)
+
         try:
             processor.set_value(
-                saveto_path, Nodes.clone_node(old_value),
+                saveto_path, saved_value,
                 value_format=old_format, tag=args.tag)
         except YAMLPathException as ex:
             log.critical(ex, 1)
